@@ -13,15 +13,47 @@
 (*           (4 x 16-bit words) -> Rounding!RoundsTo                       *)
 (*  "pinf" : text decimal was rejected with the infinity error             *)
 (*           -> Rounding!Overflows                                         *)
+(*  "numtext": the number spelling t (bytes) was parsed by the library to  *)
+(*           res \in {"uint","sint","double","err"} with magnitude digits   *)
+(*           dg (integers), words w (doubles) or error code: everything is *)
+(*           decided from the text by NumberLex / Rounding (C04)           *)
+(*  "ftoa" : the double w was printed as the bytes out (C07): JSON number  *)
+(*           with a fraction or exponent, at most 32 bytes, sign kept,     *)
+(*           and Shortest!IsShortestRoundTrip                              *)
+(*  "itoa" : the 64-bit integer (neg, magnitude digits dg) was printed as  *)
+(*           out (C08): optional '-', then exactly the digits              *)
 (***************************************************************************)
-EXTENDS Rounding, Json, CSV, IOUtils, TLC
+EXTENDS JsonText, Shortest, Json, CSV, IOUtils
 VARIABLE i
 
 Tr == ndJsonDeserialize(IOEnv.TRACE)
 
+NumTextOk(ev) ==
+  LET n == LexNum(ev.t, 1) IN
+  /\ n.ok /\ n.i = Len(ev.t) + 1
+  /\ LET v == NumVal(n.v) IN
+     CASE v.kind = "uint"    -> ev.res = "uint" /\ ev.dg = v.d
+       [] v.kind = "sint"    -> ev.res = "sint" /\ ev.dg = v.d
+       [] v.kind = "negzero" -> ev.res \in {"uint", "sint"} /\ ev.dg = <<0>>
+       [] OTHER -> IF NumOverflows(n.v) THEN ev.res = "err" /\ ev.code = 3
+                   ELSE ev.res = "double" /\ RoundsTo(v.neg, v.d, v.e, ev.w)
+
+FtoaOk(ev) ==
+  LET n == LexNum(ev.out, 1) IN
+  /\ Len(ev.out) <= 32
+  /\ n.ok /\ n.i = Len(ev.out) + 1                 \* a JSON number, nothing else
+  /\ n.v.hasf \/ n.v.hase                          \* reads back as a double
+  /\ n.v.neg = WSign(ev.w)                         \* -0.0 keeps its sign
+  /\ IsShortestRoundTrip(ev.w, NumD(n.v), NumE(n.v))
+
+ItoaOk(ev) == ev.out = (IF ev.neg = 1 THEN <<45>> ELSE <<>>) \o [j \in 1..Len(ev.dg) |-> 48 + ev.dg[j]]
+
 Holds(ev) ==
   CASE ev.k = "parse" -> RoundsTo(ev.neg = 1, ev.d, ev.e, ev.w)
     [] ev.k = "pinf"  -> Overflows(ev.d, ev.e)
+    [] ev.k = "numtext" -> NumTextOk(ev)
+    [] ev.k = "ftoa" -> FtoaOk(ev)
+    [] ev.k = "itoa" -> ItoaOk(ev)
     [] OTHER -> FALSE
 
 Init == i \in 1..Len(Tr)
